@@ -11,6 +11,7 @@ REPLAYERS = {
     "once_replay": ("Extract.v", "_extract", ["Model/MuReplay.vo", "Model/SemReplay.vo", "Model/OnceReplay.vo"]),
     "counter_replay": ("Extract_Counter.v", "_extract_counter", ["Model/CounterReplay.vo"]),
     "waitn_replay": ("Extract_WaitN.v", "_extract_waitn", ["Model/WaitNReplay.vo"]),
+    "note_replay": ("Extract_Note.v", "_extract_note", ["Model/NoteReplay.vo"]),
     "cv_replay": ("Extract_Cv.v", "_extract_cv", ["Model/CvReplay.vo"]),
     "muwait_replay": ("Extract_MuWait.v", "_extract_muwait", ["Model/MuWaitReplay.vo"]),
 }
